@@ -1,8 +1,8 @@
 (* Correspondence cases for C17: each constructor carries an input and what the
    Go implementation did on it; [check] evaluates the model on the same input
    and compares the projected observables. *)
-Require Import Avro.Model.Base Avro.Model.Prim Avro.Corr.Common.
-Export Avro.Model.Base Avro.Corr.Common.
+Require Import Avro.Model.Base Avro.Model.Prim Avro.Model.Buffers Avro.Corr.Common.
+Export Avro.Model.Base Avro.Model.Buffers Avro.Corr.Common.
 
 Inductive case :=
 | KEnc (v : Z) (impl : bytes)                 (* WriteBuf.Varint *)
@@ -13,7 +13,11 @@ Inductive case :=
 | KFloatRead (n : nat) (bs : bytes) (read : ires)
 | KF32D (bits32 : Z) (wrote : bytes) (read : ires)            (* Float32DoubleCodec *)
 | KF32DRead (bits64 : Z) (read : ires)
-| KBool (bs : bytes) (impl : ires).
+| KBool (bs : bytes) (impl : ires)
+(* a WriteBuf over a slice that held [prefix]: the operations, and what Bytes returned at the end *)
+| KWb (prefix : bytes) (ops : list wb_op) (impl : bytes)
+(* a ReadBuf over [data]: the operations, and after each one what the call returned and Len() *)
+| KRb (data : bytes) (ops : list rb_op) (impl : list (rb_obs * Z)).
 
 Definition nan_eqb32 (model impl : Z) : bool :=
   if f32_is_nan model then f32_is_nan impl else model =? impl.
@@ -22,6 +26,15 @@ Definition ires_eqb_nan32 (model impl : ires) : bool :=
   match model, impl with
   | IOk v r, IOk v' r' => nan_eqb32 v v' && (r =? r')
   | _, _ => ires_eqb model impl
+  end.
+
+Definition obs_eqb (a c : rb_obs) : bool :=
+  match a, c with
+  | OBytes x, OBytes y => bytes_eqb x y
+  | OInt x, OInt y => x =? y
+  | OByte x, OByte y => x =? y
+  | OErr, OErr | ONone, ONone => true
+  | _, _ => false
   end.
 
 Definition check (c : case) : bool :=
@@ -40,6 +53,8 @@ Definition check (c : case) : bool :=
       ires_eqb_nan32 (ires_of (fun v => v) (f32d_read wrote)) read
   | KF32DRead b read => ires_eqb_nan32 (ires_of (fun v => v) (f32d_read (le_bytes 8 b))) read
   | KBool bs impl => ires_eqb (ires_of (fun b : bool => if b then 1 else 0) (bool_read bs)) impl
+  | KWb prefix ops impl => bytes_eqb (wb_run prefix ops) impl
+  | KRb data ops impl => list_eqb (fun p q => obs_eqb (fst p) (fst q) && (snd p =? snd q)) (rb_run data ops) impl
   end.
 
 Definition bad_ids := bad_ids_gen check.
